@@ -460,6 +460,8 @@ def r_len(M, st, t, le):
         return None
     c = conc(v)
     if c is None:
+        if z3.is_bv(v) and getattr(M, 'ctl', None) is not None:
+            return M.ctl.concretise(v)
         raise Unsupported('symbolic length prefix')
     return c
 
@@ -583,8 +585,9 @@ def codec_call(M, fid, a):
 
 
 def bound(n):
-    if n > 64:
-        raise Outcome('unwind', 'loop bound 64 exceeded (list length %d)' % n)
+    from . import core as _core
+    if n > _core.LOOP_BOUND[0]:
+        raise Outcome('unwind', 'loop bound %d exceeded (list length %d)' % (_core.LOOP_BOUND[0], n))
     return n
 
 
